@@ -46,6 +46,14 @@ def inputs_for(bpt, tier):
         for b in seconds:
             if sum(1 for r in a[1] if r[0] == "F") == 2 and (full or sum(1 for r in b[1] if r[0] == "F") == 2):
                 out.append((a, b))
+    # an input scaffold without any contig (an all-N FASTA record) between / before scaffolds that have junctions
+    for style in ("fasta", "tpf"):
+        a = ("scaffold_1", pv.scaffold_rows(style, "scaffold_1", (2 * e + 1, e), ((("G", 2, "scaffold"),),), (1, 1)))
+        c = ("scaffold_3", pv.scaffold_rows(style, "scaffold_3", (e, 2 * e + 1, 1), ((("G", 2, "scaffold"),), (("G", 1, "scaffold"),)), (1, 1, 1)))
+        for glen in (1, 2 * e):
+            g = ("scaffold_2", (("G", glen, "scaffold"),))
+            out.append((a, g, c))
+            out.append((g, c))
     return out
 
 
@@ -213,3 +221,5 @@ class C11(Check):
 
 
 CHECK = C11()
+# scope added in later rounds, kept in the evidence text
+CHECK.rule += ' Inputs with a scaffold that has no contig at all (gap only, 1 or 2E bases) before / between scaffolds with junctions.'
